@@ -2123,7 +2123,7 @@ func string_split(_ *Thread, b *Builtin, args Tuple, kwargs []Tuple) (Value, err
 
 // Precondition: max >= 0.
 func rsplitspace(s string, max int) []string {
-	res := make([]string, 0, max+1)
+	var res []string // max may be huge: don't pre-size from it
 	end := -1 // index of field end, or -1 in a region of spaces.
 	for i := len(s); i > 0; {
 		r, sz := utf8.DecodeLastRuneInString(s[:i])
